@@ -16,6 +16,8 @@ import (
 	"regexp"
 	"runtime"
 	"strings"
+	"sync"
+	"time"
 
 	"github.com/keep-network/keep-core/pkg/tbtc"
 
@@ -28,6 +30,15 @@ type input struct {
 	// stream: number of blocks offered before the context is cancelled (-1: cancel after the
 	// whole stream); the blocks after that point are offered racing with the cancellation
 	CancelAt int `json:"cancelAt"`
+	// life: the history of the block source of ONE watcher: blocks offered on the current
+	// subscription and closures of the current channel; every call of watchBlocksFn gets a new
+	// channel (CancelAt counts events)
+	Events []event `json:"events,omitempty"`
+}
+
+type event struct {
+	B     uint64 `json:"b"`
+	Close bool   `json:"close,omitempty"`
 }
 
 const freq = 900 // only used to GENERATE interesting streams; the model uses the translated constant
@@ -195,8 +206,224 @@ func runStream(in input) (steps []stepObs, panicked string) {
 	return steps, panicked
 }
 
+type lifeObs struct {
+	Close    bool     `json:"close,omitempty"`
+	Block    uint64   `json:"block"`
+	Received bool     `json:"received"`
+	Started  []uint64 `json:"started"`
+}
+
+// runLife drives ONE watcher through a history of its block source: blocks offered on the
+// current subscription and closures of the current channel. watchBlocksFn hands out a new
+// channel on every call. After a closure the driver finds out what the watcher did about it:
+//   - it asked for a new subscription and is parked in its select again: go on there;
+//   - it returned: nothing more is received;
+//   - it is parked without a new subscription: nothing more is received;
+//   - it busy-spins on the closed channel (the unchanged code: zero-value reads): it has been
+//     seen running, never parked, in many consecutive goroutine dumps. This only decides when
+//     the driver stops offering blocks (they are reported as not received, which is what
+//     happened); no verdict depends on it. The watcher is then cancelled and awaited.
+func runLife(in input) (obs []lifeObs, subs int, after []string, panicked string) {
+	defer func() {
+		if r := recover(); r != nil {
+			panicked = fmt.Sprint(r)
+		}
+	}()
+	ctx, cancel := context.WithCancel(context.Background())
+	defer cancel()
+	var mu sync.Mutex
+	var chans []chan uint64
+	nSubs := func() int { mu.Lock(); defer mu.Unlock(); return len(chans) }
+	trig := make(chan uint64)
+	done := make(chan string, 1)
+	go func() {
+		defer func() {
+			if r := recover(); r != nil {
+				done <- fmt.Sprint(r)
+				return
+			}
+			done <- ""
+		}()
+		tbtc.VerifC23WatchCoordinationWindows(
+			ctx,
+			func(context.Context) <-chan uint64 {
+				mu.Lock()
+				defer mu.Unlock()
+				ch := make(chan uint64)
+				chans = append(chans, ch)
+				return ch
+			},
+			func(b uint64) { trig <- b },
+		)
+	}()
+	gone := false
+	goneMsg := ""
+	watcherGone := func() bool {
+		if gone {
+			return true
+		}
+		select {
+		case goneMsg = <-done:
+			gone = true
+		default:
+		}
+		return gone
+	}
+	collect(trig, watcherGone)
+	deaf := nSubs() == 0 // nothing can be received any more
+	var cur chan uint64
+	if !deaf {
+		cur = chans[0]
+	}
+	cancelAt := in.CancelAt
+	if cancelAt < 0 || cancelAt > len(in.Events) {
+		cancelAt = len(in.Events)
+	}
+	dropped := false
+	for i, e := range in.Events {
+		if i == cancelAt {
+			cancel()
+		}
+		if deaf {
+			obs = append(obs, lifeObs{Close: e.Close, Block: e.B})
+			continue
+		}
+		if !e.Close {
+			if watcherGone() {
+				dropped = true
+				break
+			}
+			select {
+			case cur <- e.B:
+			case goneMsg = <-done:
+				gone = true
+			}
+			if gone {
+				dropped = true
+				break
+			}
+			obs = append(obs, lifeObs{Block: e.B, Received: true, Started: collect(trig, watcherGone)})
+			continue
+		}
+		// the source closes the current channel (close readies the parked watcher before it
+		// returns, so a "select" state seen from now on is a NEW park)
+		n0 := nSubs()
+		close(cur)
+		started := []uint64{}
+		t0 := time.Now()
+		busy := 0
+		for {
+			d := snapshot()
+			for k := 0; k < d.callbacks; k++ {
+				started = append(started, <-trig)
+			}
+			if d.callbacks > 0 {
+				for snapshot().callbacks > 0 {
+					runtime.Gosched()
+				}
+				continue
+			}
+			if d.watcherState == "" && watcherGone() {
+				after = append(after, "returned")
+				deaf = true
+				break
+			}
+			if strings.HasPrefix(d.watcherState, "select") {
+				if n := nSubs(); n > n0 {
+					after = append(after, "resubscribed")
+					mu.Lock()
+					cur = chans[n-1]
+					mu.Unlock()
+				} else {
+					after = append(after, "parked")
+					deaf = true
+				}
+				break
+			}
+			busy++
+			if busy >= 30 && time.Since(t0) > 15*time.Millisecond {
+				after = append(after, "spins")
+				deaf = true
+				break
+			}
+			runtime.Gosched()
+		}
+		obs = append(obs, lifeObs{Close: true, Received: true, Started: started})
+	}
+	cancel()
+	if !gone {
+		goneMsg = <-done
+		gone = true
+	}
+	_ = dropped
+	if late := collect(trig, watcherGone); len(late) > 0 {
+		// cannot happen unless a callback is started outside a loop iteration
+		obs = append(obs, lifeObs{Close: true, Received: true, Started: late})
+	}
+	if goneMsg != "" {
+		panicked = goneMsg
+	}
+	return obs, nSubs(), after, panicked
+}
+
+func runLifeCase(in input, em *lib.Emitter, id string) {
+	obs, subs, after, panicked := runLife(in)
+	items := make([]string, 0, len(obs)+1)
+	closes, crossReplay := 0, false
+	maxWin := uint64(0) // highest window start offered before the latest closure
+	curMax := uint64(0)
+	for _, o := range obs {
+		evt := "EClose"
+		if !o.Close {
+			evt = "(EBlock " + lib.ZU(o.Block) + ")"
+		}
+		out := "None"
+		if o.Received {
+			st := make([]string, len(o.Started))
+			for j, w := range o.Started {
+				st[j] = lib.ZU(w)
+			}
+			out = lib.Some(lib.List(st))
+		}
+		items = append(items, lib.Pair(evt, out))
+		if o.Close {
+			closes++
+			maxWin = curMax
+			continue
+		}
+		if o.Block%freq == 0 && o.Block > 0 {
+			if closes > 0 && o.Block <= maxWin {
+				crossReplay = true
+			}
+			if o.Block > curMax {
+				curMax = o.Block
+			}
+		}
+	}
+	if panicked != "" {
+		items = append(items, lib.Pair("(EBlock "+lib.ZU(1)+")", lib.Some(lib.List([]string{lib.ZU(1)}))))
+	}
+	em.Tally(fmt.Sprintf("life-closures-%d", closes))
+	em.Tally(fmt.Sprintf("life-subscriptions-%d", subs))
+	for _, a := range after {
+		em.Tally("life-after-close-" + a)
+	}
+	if crossReplay {
+		em.Tally("life-replay-or-regression-across-closure")
+	}
+	em.Case(lib.Case{ID: id, Coq: "(CLife " + lib.List(items) + ")",
+		Key:        fmt.Sprintf("life|%v|%d|%d", in.Events, in.CancelAt, len(obs)),
+		Nontrivial: closes > 0 && crossReplay,
+		Sig: map[string]interface{}{"fn": "life", "closures": closes > 0, "crossReplay": crossReplay,
+			"resubscribed": subs > 1, "panic": panicked != ""},
+		In: in, Out: map[string]interface{}{"events": obs, "subscriptions": subs,
+			"afterClose": after, "panic": panicked}})
+}
+
 func run(in input, em *lib.Emitter, id string) {
 	switch in.Fn {
+	case "life":
+		runLifeCase(in, em, id)
 	case "index":
 		b := in.Blocks[0]
 		var idx uint64
@@ -334,6 +561,95 @@ func genStream(r *lib.Rng, n int) []uint64 {
 	return out[:n]
 }
 
+func blocksToEvents(bs []uint64) []event {
+	out := make([]event, len(bs))
+	for i, b := range bs {
+		out[i] = event{B: b}
+	}
+	return out
+}
+
+// genLife builds a history of the block source: a first subscription, a closure, and further
+// subscriptions that replay, repeat or regress below what was delivered before the closure
+// (what a re-established block subscription typically does) or just move forward.
+func genLife(r *lib.Rng) []event {
+	var evs []event
+	var prev []uint64
+	if !r.Chance(1, 12) {
+		prev = genStream(r, r.Range(1, 12))
+		if r.Chance(2, 3) { // make sure a window was delivered shortly before the closure
+			w := prev[len(prev)-1]/freq*freq + freq
+			if w < freq {
+				w = freq
+			}
+			prev = append(prev, w-1, w)
+			if r.Bool() {
+				prev = append(prev, w+1)
+			}
+		}
+	}
+	evs = append(evs, blocksToEvents(prev)...)
+	nSubs := r.Range(1, 2)
+	for s := 0; s < nSubs; s++ {
+		evs = append(evs, event{Close: true})
+		maxWin := uint64(0)
+		for _, b := range prev {
+			if b%freq == 0 && b > maxWin {
+				maxWin = b
+			}
+		}
+		next := maxWin + freq
+		if next < freq {
+			next = freq
+		}
+		var sub []uint64
+		switch r.Intn(6) {
+		case 0, 1: // replay of the most recent blocks, then forward
+			if len(prev) > 0 {
+				k := r.Range(1, 6)
+				if k > len(prev) {
+					k = len(prev)
+				}
+				sub = append(sub, prev[len(prev)-k:]...)
+			}
+			sub = append(sub, next-1, next, next+1)
+		case 2: // the latest window start again (and again)
+			sub = append(sub, maxWin)
+			if r.Bool() {
+				sub = append(sub, maxWin, next)
+			}
+		case 3: // regression below the latest window start
+			k := uint64(r.Range(1, 3))
+			if maxWin/freq > k {
+				sub = append(sub, (maxWin/freq-k)*freq)
+			} else {
+				sub = append(sub, freq)
+			}
+			if r.Bool() {
+				sub = append(sub, maxWin, next)
+			}
+		case 4: // an arbitrary selection of what was delivered before
+			for i := r.Range(1, 5); i > 0 && len(prev) > 0; i-- {
+				sub = append(sub, prev[r.Intn(len(prev))])
+			}
+		default: // forward only
+			sub = append(sub, next, next+1)
+			if r.Bool() {
+				sub = append(sub, next+freq)
+			}
+		}
+		if r.Chance(1, 3) {
+			sub = append(sub, genStream(r, r.Range(1, 5))...)
+		}
+		evs = append(evs, blocksToEvents(sub)...)
+		prev = append(prev, sub...)
+	}
+	if r.Chance(1, 6) {
+		evs = append(evs, event{Close: true})
+	}
+	return evs
+}
+
 func main() {
 	o := lib.ParseOpts()
 	em := lib.NewEmitter()
@@ -351,22 +667,39 @@ func main() {
 
 	// --- corpus
 	corpus := []input{
-		{"stream", []uint64{899, 900, 900, 901, 1800, 1800}, -1},
-		{"stream", []uint64{1800, 900, 1800, 2700, 900, 2700}, -1},
-		{"stream", []uint64{0, 0, 900, 0}, -1},
-		{"stream", []uint64{900, 1800, 2700}, 1},
-		{"stream", []uint64{2700, 2700, 2700}, 0},
-		{"stream", []uint64{18446744073709551600, 18446744073709550700, 18446744073709551600, 900}, -1},
-		{"stream", []uint64{450, 1350, 901, 1799}, -1},
-		{"stream", []uint64{}, -1},
-		{"index", []uint64{0}, 0}, {"index", []uint64{900}, 0}, {"index", []uint64{899}, 0},
-		{"index", []uint64{18446744073709551600}, 0}, {"index", []uint64{18446744073709551615}, 0},
-		{"isafter", []uint64{900}, 0}, {"isafter", []uint64{900, 900}, 0},
-		{"isafter", []uint64{900, 1800}, 0}, {"isafter", []uint64{1800, 900}, 0},
+		{Fn: "stream", Blocks: []uint64{899, 900, 900, 901, 1800, 1800}, CancelAt: -1},
+		{Fn: "stream", Blocks: []uint64{1800, 900, 1800, 2700, 900, 2700}, CancelAt: -1},
+		{Fn: "stream", Blocks: []uint64{0, 0, 900, 0}, CancelAt: -1},
+		{Fn: "stream", Blocks: []uint64{900, 1800, 2700}, CancelAt: 1},
+		{Fn: "stream", Blocks: []uint64{2700, 2700, 2700}, CancelAt: 0},
+		{Fn: "stream", Blocks: []uint64{18446744073709551600, 18446744073709550700, 18446744073709551600, 900}, CancelAt: -1},
+		{Fn: "stream", Blocks: []uint64{450, 1350, 901, 1799}, CancelAt: -1},
+		{Fn: "stream", Blocks: []uint64{}, CancelAt: -1},
+		{Fn: "index", Blocks: []uint64{0}, CancelAt: 0}, {Fn: "index", Blocks: []uint64{900}, CancelAt: 0}, {Fn: "index", Blocks: []uint64{899}, CancelAt: 0},
+		{Fn: "index", Blocks: []uint64{18446744073709551600}, CancelAt: 0}, {Fn: "index", Blocks: []uint64{18446744073709551615}, CancelAt: 0},
+		{Fn: "isafter", Blocks: []uint64{900}, CancelAt: 0}, {Fn: "isafter", Blocks: []uint64{900, 900}, CancelAt: 0},
+		{Fn: "isafter", Blocks: []uint64{900, 1800}, CancelAt: 0}, {Fn: "isafter", Blocks: []uint64{1800, 900}, CancelAt: 0},
 	}
 	for i, c := range corpus {
 		run(c, em, fmt.Sprintf("corpus-%02d", i))
 	}
+	B := func(b uint64) event { return event{B: b} }
+	X := event{Close: true}
+	lifeCorpus := [][]event{
+		// the subscription is dropped right after window 900; a new one would replay 899..901
+		{B(898), B(899), B(900), B(901), X, B(899), B(900), B(901), B(1799), B(1800), B(1801), B(1802)},
+		// a new subscription would regress below the latest window
+		{B(900), B(1800), X, B(900), B(1800), B(2700)},
+		{B(2700), X, B(1800), X, B(900)},
+		{X, B(900), B(900)},
+		{B(900), X, X, B(900)},
+		{B(899), X},
+		{B(900), B(901), X, B(1800), B(1801)},
+	}
+	for i, c := range lifeCorpus {
+		run(input{Fn: "life", Events: c, CancelAt: -1}, em, fmt.Sprintf("life-corpus-%02d", i))
+	}
+	run(input{Fn: "life", Events: lifeCorpus[0], CancelAt: 5}, em, "life-corpus-cancel")
 
 	// --- small scope, exhaustive: every stream of length <= 4 over {0, f-1, f, 2f, 3f} (quick: a
 	// seeded sample of them)
@@ -388,7 +721,7 @@ func main() {
 	nSmall := o.Count(150, len(small))
 	perm := rng.Fork("small").Perm(len(small))
 	for i := 0; i < nSmall && i < len(small); i++ {
-		run(input{"stream", small[perm[i]], -1}, em, fmt.Sprintf("small-%d", i))
+		run(input{Fn: "stream", Blocks: small[perm[i]], CancelAt: -1}, em, fmt.Sprintf("small-%d", i))
 	}
 
 	// --- random streams
@@ -404,7 +737,39 @@ func main() {
 		if r.Chance(1, 4) {
 			cancelAt = r.Intn(len(blocks) + 1)
 		}
-		run(input{"stream", blocks, cancelAt}, em, fmt.Sprintf("rand-%d", i))
+		run(input{Fn: "stream", Blocks: blocks, CancelAt: cancelAt}, em, fmt.Sprintf("rand-%d", i))
+	}
+	// --- whole-life histories: small scope over {f-1, f, 2f, close}, length <= 4 (quick: a sample)
+	lifeAlphabet := []event{B(freq - 1), B(freq), B(2 * freq), X}
+	var smallLife [][]event
+	var recL func(cur []event, k int, closed bool)
+	recL = func(cur []event, k int, closed bool) {
+		if closed && len(cur) > 1 {
+			smallLife = append(smallLife, append([]event{}, cur...))
+		}
+		if k == 0 {
+			return
+		}
+		for _, a := range lifeAlphabet {
+			recL(append(cur, a), k-1, closed || a.Close)
+		}
+	}
+	recL(nil, 4, false)
+	nSmallLife := o.Count(50, len(smallLife))
+	permL := rng.Fork("smalllife").Perm(len(smallLife))
+	for i := 0; i < nSmallLife && i < len(smallLife); i++ {
+		run(input{Fn: "life", Events: smallLife[permL[i]], CancelAt: -1}, em, fmt.Sprintf("smalllife-%d", i))
+	}
+	// --- random whole-life histories
+	nLife := o.Count(110, 1500)
+	for i := 0; i < nLife; i++ {
+		r := rng.Fork(fmt.Sprintf("life%d", i))
+		evs := genLife(r)
+		cancelAt := -1
+		if r.Chance(1, 6) {
+			cancelAt = r.Intn(len(evs) + 1)
+		}
+		run(input{Fn: "life", Events: evs, CancelAt: cancelAt}, em, fmt.Sprintf("life-%d", i))
 	}
 	// --- pure functions
 	nPure := o.Count(100, 1000)
@@ -420,17 +785,19 @@ func main() {
 			b = uint64(r.Intn(50)) * freq
 		}
 		if r.Bool() {
-			run(input{"index", []uint64{b}, 0}, em, fmt.Sprintf("index-%d", i))
+			run(input{Fn: "index", Blocks: []uint64{b}, CancelAt: 0}, em, fmt.Sprintf("index-%d", i))
 		} else {
 			other := b + uint64(r.Intn(3)) - 1
 			if r.Chance(1, 5) {
-				run(input{"isafter", []uint64{b}, 0}, em, fmt.Sprintf("isafter-%d", i))
+				run(input{Fn: "isafter", Blocks: []uint64{b}, CancelAt: 0}, em, fmt.Sprintf("isafter-%d", i))
 			} else {
-				run(input{"isafter", []uint64{b, other}, 0}, em, fmt.Sprintf("isafter-%d", i))
+				run(input{Fn: "isafter", Blocks: []uint64{b, other}, CancelAt: 0}, em, fmt.Sprintf("isafter-%d", i))
 			}
 		}
 	}
-	em.Close("a case is one run of the real watchCoordinationWindows on a scripted stream of consumed blocks "+
-		"(or one call of index / isAfter); distinct by the consumed blocks; a stream is non-trivial when it "+
-		"contains >= 2 window starts and a duplicate or a regression among them", nil)
+	em.Close("a case is one run of the real watchCoordinationWindows on a scripted stream of consumed blocks, "+
+		"or on a whole-life history of its block source (blocks, closures of the current channel, a new channel "+
+		"per watchBlocksFn call), or one call of index / isAfter; distinct by the consumed blocks / the history; "+
+		"a stream is non-trivial when it contains >= 2 window starts and a duplicate or a regression among them, "+
+		"a life when a window start at or below the latest one is offered after a closure", nil)
 }
